@@ -668,7 +668,9 @@ func (w *Worker) explore(fn *ssa.Function, prefix []decision) {
 			w.sh.addInconclusive(Inconclusive{w.harness, "engine", msg})
 		}
 		// periodic solver restart to bound memory
-		if w.solver.sinceBoot > restartEvery {
+		if w.solver.sinceBoot > restartEvery || w.tt.nextID > maxTerms {
+			// also when the hash-consed term table has grown large: paths whose
+			// assertions all fold never reach the query limit but keep every term
 			w.resetSolver()
 		}
 		// donate work if others are idle
@@ -904,6 +906,8 @@ func (w *Worker) factEval(c *Term, depth int) (bool, bool) {
 	}
 	return false, false
 }
+
+const maxTerms = 1500000
 
 var restartEvery = func() int {
 	if v := os.Getenv("GOSYM_RESTART"); v != "" {
